@@ -1,5 +1,6 @@
 import PyresampleModel.Gen.Src
 import PyresampleModel.Props.C16
+import PyresampleModel.Proofs.Num
 
 /-
   Tie theorems, C16: the number of vertices per side that `BaseDefinition._get_bbox_slices` asks `np.linspace` for, as
@@ -29,34 +30,68 @@ theorem code_bbox_counts_le (H W : Nat) (k : Option Int) :
 /-- **the ring never repeats a pixel**: for a geometry of at least 2 × 2 pixels and any requested `vertices_per_side ≥ 2`
 (or `None`: the full sides), the side lengths computed by the current code, fed to the exact selection
 `⌊i (n−1)/(count−1)⌋`, give four sides whose contour has no repeated pixel -/
-theorem code_ring_no_repeat (H W : Nat) (hH : 2 ≤ H) (hW : 2 ≤ W) (k : Option Nat) (hk : ∀ v, k = some v → 2 ≤ v) :
-    let n := Gen.bbox_counts ((H : Int), (W : Int)) (k.map (fun v => (v : Int)))
+theorem code_ring_no_repeat (H W : Nat) (hH : 2 ≤ H) (hW : 2 ≤ W) (k : Option Int) (hk : ∀ v, k = some v → 2 ≤ v) :
+    let n := Gen.bbox_counts ((H : Int), (W : Int)) k
     let selR := C16.linSel H n.1.toNat
     let selC := C16.linSel W n.2.toNat
     (C16.contour (C16.sides H W selC selR selC.reverse selR.reverse)).Nodup := by
   intro n selR selC
-  have hn : n = (match k with | some v => (((min v H : Nat) : Int), ((min v W : Nat) : Int)) | none => ((H : Int), (W : Int))) := by
-    show Gen.bbox_counts _ _ = _
+  have e1 : n.1.toNat = (match k with | some v => min v.toNat H | none => H) := by
+    show (Gen.bbox_counts _ _).1.toNat = _
     rw [tie_bbox_counts]
     cases k with
-    | none => rfl
-    | some v => simp only [Option.map_some]; exact Prod.ext (by simp; omega) (by simp; omega)
+    | none => simp
+    | some v => have := hk v rfl; simp only; omega
+  have e2 : n.2.toNat = (match k with | some v => min v.toNat W | none => W) := by
+    show (Gen.bbox_counts _ _).2.toNat = _
+    rw [tie_bbox_counts]
+    cases k with
+    | none => simp
+    | some v => have := hk v rfl; simp only; omega
   have gR : C16.Good H selR := by
     show C16.Good H (C16.linSel H n.1.toNat)
-    rw [hn]
+    rw [e1]
     cases k with
-    | none => simpa using C16.linSel_good H H hH (Nat.le_refl _)
+    | none => exact C16.linSel_good H H hH (Nat.le_refl _)
     | some v =>
       have := hk v rfl
-      simpa using C16.linSel_good H (min v H) (by omega) (Nat.min_le_right _ _)
+      exact C16.linSel_good H (min v.toNat H) (by omega) (Nat.min_le_right _ _)
   have gC : C16.Good W selC := by
     show C16.Good W (C16.linSel W n.2.toNat)
-    rw [hn]
+    rw [e2]
     cases k with
-    | none => simpa using C16.linSel_good W W hW (Nat.le_refl _)
+    | none => exact C16.linSel_good W W hW (Nat.le_refl _)
     | some v =>
       have := hk v rfl
-      simpa using C16.linSel_good W (min v W) (by omega) (Nat.min_le_right _ _)
+      exact C16.linSel_good W (min v.toNat W) (by omega) (Nat.min_le_right _ _)
   exact C16.contour_no_repeat H W selC selR selC.reverse selR.reverse gC gR (by simpa using gC) (by simpa using gR) hH hW
+
+/-- geostationary areas: the number of disk-polygon points asked for is at least 4, even, and at least what was requested
+(`None` ⇒ 50) -/
+theorem code_geos_nb_points (k : Option Int) :
+    let n := Gen.geos_nb_points k
+    4 ≤ n ∧ n % 2 = 0 ∧ (∀ v, k = some v → v ≤ n ∧ n ≤ max v 4 + 1) ∧ (k = none → n = 50) := by
+  cases k with
+  | none => simp [Gen.geos_nb_points]
+  | some v =>
+    have hf : Int.fmod v 2 = v % 2 := Int.fmod_eq_emod_of_nonneg _ (by omega)
+    simp only [Gen.geos_nb_points, hf]
+    by_cases h4 : v < 4
+    · simp [h4]; omega
+    · by_cases hodd : v % 2 ≠ 0
+      · simp [h4, hodd]; omega
+      · simp [h4, hodd]; omega
+
+/-- the split point of the four geostationary sides is `len(x) // 2 - 1`, the `s` of the model's `geosSides`
+(whose theorems `geos_contour`, `geos_sides_chain` say that no vertex is lost or repeated for any number ≥ 4 of vertices) -/
+theorem tie_geos_side_step (n : Nat) : Gen.geos_side_step (n : Int) = ((n / 2 : Nat) : Int) - 1 := by
+  simp only [Gen.geos_side_step]
+  have h : (((n : Int) : Rat) / ((2 : Int) : Rat)) = ((n : Rat) / 2) := by push_cast; rfl
+  rw [h, pyTrunc_of_nonneg (by positivity), pyFloor_eq]
+  have : ⌊((n : Rat) / 2)⌋ = ((n / 2 : Nat) : Int) := by
+    have := Rat.floor_natCast_div_natCast n 2
+    push_cast at this ⊢
+    exact this
+  rw [this]
 
 end PyresampleModel.Tie
